@@ -448,7 +448,7 @@ WellFormed(d) ==
 C10a(g, o, g2) == WellFormed(o.db2) /\ \A k \in DOMAIN o.tr : WellFormed(o.tr[k].db)
 C10b(g, o, g2) == (o.e.k = "Start") => o.err = ABSENT
 \* after a crash nothing fails internally
-C10c(g, o, g2) == (g.crashed /\ o.e.m.mood \notin BadMoods) => o.err \in {ABSENT, "crash"}
+C10c(g, o, g2) == (g.crashed /\ {o.e.m.mood, o.e.m.phase, o.e.m.body, o.e.m.id} \cap BadMoods = {}) => o.err \in {ABSENT, "crash"}
 
 (***************************************************************************)
 (* C12  expiry never removes a channel that is active or has a subscriber  *)
@@ -581,7 +581,7 @@ C17e(g, o, g2) ==   \* a malformed / out-of-order command: one error, no effect
      /\ o.err = ABSENT
 C17f(g, o, g2) ==   \* no handler fails internally (known finding F2 apart); values SQLite cannot
                     \* bind are not "well-formed commands with string-valued fields"
-  (o.e.k \in {"Cmd", "Connect", "Drop"} /\ o.e.m.mood \notin BadMoods) => o.err = ABSENT
+  (o.e.k \in {"Cmd", "Connect", "Drop"} /\ {o.e.m.mood, o.e.m.phase, o.e.m.body, o.e.m.id} \cap BadMoods = {}) => o.err = ABSENT
 
 (***************************************************************************)
 (* C18  (single-run part) list answers with exactly the live nameplates    *)
